@@ -1,5 +1,5 @@
 #![no_main]
-//! C17: bytes -> (postcard) -> a sequence of safe API calls incl. adversarial readers.
+//! C17: bytes -> (total hand-written decoder) -> a sequence of safe API calls incl. adversarial readers.
 //! Oracles: AddressSanitizer / debug assertions (crash), and the panic discipline.
 use libfuzzer_sys::fuzz_target;
 use vcheck::checks::c17;
@@ -20,8 +20,8 @@ fn violation(m: String) -> ! {
 
 fuzz_target!(|data: &[u8]| {
     quiet();
-    let Ok(mut seq) = postcard::from_bytes::<c17::Sequence>(data) else { return };
-    c17::sanitize(&mut seq);
+    // a total decoder: every input denotes a sequence (sizes bounded by construction)
+    let seq = c17::decode_lenient(data);
     if let Err(m) = c17::exec(&probe::API, &seq, &CaseStats::null()) {
         violation(format!("C17 violation: {}", m));
     }
